@@ -106,6 +106,13 @@ func (e *Enc) hostEnv(fr *Frame) *Env {
 			env.vars[fmt.Sprintf("arg%d", j)] = fr.args[off+j]
 		}
 	}
+	if fr.contract != nil {
+		for n, j := range fr.contract.ParamAlias {
+			if off+j < len(fr.args) {
+				env.vars[n] = fr.args[off+j]
+			}
+		}
+	}
 	for i, fv := range fn.FreeVars {
 		if i < len(fr.bind) {
 			env.vars[fv.Name()] = fr.bind[i]
@@ -537,9 +544,9 @@ func (e *Enc) evalBinary(env *Env, n CBinary, cur, old *State) Val {
 	switch n.Op {
 	case "==", "!=":
 		var t Term
-		if srt == "Slice" && (lt == "nil_slice" || rt == "nil_slice") {
+		if srt == "Slice" && (lt == "(mk_slice 0 0 0)" || rt == "(mk_slice 0 0 0)") {
 			o := lt
-			if lt == "nil_slice" {
+			if lt == "(mk_slice 0 0 0)" {
 				o = rt
 			}
 			t = "(= (sl_ref " + o + ") 0)"
@@ -653,6 +660,12 @@ func (e *Enc) evalCall(env *Env, n CCall, cur, old *State) Val {
 		}
 		t := e.w.resolveType(exprTypeString(n.Args[1]), env.pkg)
 		if t == nil {
+			if env.cl.Trusted {
+				// a trusted spec naming a type of a package that is not loaded in this run: no value of
+				// that type can occur
+				_ = arg(0)
+				return Val{T: "false", Typ: tBool}
+			}
 			e.evalFail(env, "unknown type %s", n.Args[1])
 		}
 		return Val{T: fmt.Sprintf("(= (if_typ %s) %d)", arg(0).T, e.sorts.TypeID(t)), Typ: tBool}
